@@ -136,6 +136,9 @@ pub enum Step {
     /// faithful driver loop until nothing is due, then Quiesce marker and Snapshot
     Quiesce {},
     Snapshot {},
+    /// (instrument) place the packet-id allocator's cursor: any cursor position is reachable by running enough operations,
+    /// so identifier wrap-around next to live identifiers can be scripted instead of pushing 65535 operations through
+    Cursor { v: u16 },
     /// bring the run to a good end whatever state a script left it in: close a dead connection, open one if
     /// there is none, then let the faithful driver and the conforming broker finish everything (Quiesce)
     Settle {},
@@ -904,6 +907,11 @@ impl<'a> Sim<'a> {
         let mut legal = self.b.connack_sent && in_order;
         match how {
             "normal" => { self.b.owed[idx].answered = true; }
+            // MQTT 5 "No matching subscribers" (0x10) on PUBACK / PUBREC: a success code, the exchange goes on as usual
+            "nomatch" => {
+                self.b.owed[idx].answered = true;
+                if self.v5 && (o.kind == rc::PUBACK || o.kind == rc::PUBREC) { p.set("reason_code", V::U(0x10)); }
+            }
             "fail" => {
                 self.b.owed[idx].answered = true;
                 match o.kind {
@@ -1097,6 +1105,13 @@ impl<'a> Sim<'a> {
                 self.snapshot(true);
             }
             Step::Snapshot {} => self.snapshot(false),
+            Step::Cursor { v } => {
+                let v = (*v).max(1);
+                if self.dead { return; }
+                self.engine.set_next_packet_id(v);
+                self.emit("Cursor", vec![("v", json!(v))]);
+                self.emit_state();
+            }
             Step::Settle {} => {
                 if self.b.open && (self.state() == "Halted" || self.state() == "PendingDisconnect") { self.close(); }
                 if self.dead { return; }
